@@ -70,6 +70,26 @@ def run(tier):
         if o["obs"].get("panicked"):
             c.violation("local handshake task panicked on %s %s: %s" % (o["scenario"]["kind"], o["scenario"]["hist"], o["obs"]["result"]), o)
     c.add("local_hostile_behaviours_replayed", k)
+    # 4b. request targets that are no target of the grammar (unbalanced brackets, empty bracket pair, multi-byte characters
+    #     behind a bracket) on the real authority parser: refused or taken literally, never a panic
+    rt = tlc("MCHttpTarget", "MCHttpTarget.cfg", workers=2, timeout=900)
+    hostile = [x for x in rt.replay if x["expect"]["kind"] == "lenient"]
+    if not hostile:
+        raise vlib.ToolError("no hostile request targets exported")
+    extra = []
+    for x in hostile:
+        for junk in ("\u00e9", "\u4e2d", "%"):
+            if "[" in x["uri"]:
+                y = json.loads(json.dumps(x))
+                y["uri"] = x["uri"].replace("[", "[" + junk, 1)
+                y["expect"]["host"] = x["expect"]["host"].replace("[", "[" + junk, 1)
+                extra.append(y)
+    rows = vh_json_lines(["c13-grammar"], stdin="\n".join(json.dumps(s) for s in hostile + extra) + "\n", timeout=900)
+    for o in rows:
+        if o.get("summary"):
+            c.add("hostile_request_targets_replayed", o["targets"])
+        elif o["got"]["kind"] == "panic":
+            c.violation("the local authority parser panicked on request target %s %r: %s" % (o["scenario"]["method"], o["scenario"]["uri"], o.get("detail")), o)
     # 5. impl -> spec: attacked / truncated runs of every decoder (Trojan included), NoPanic in every state
     wd = vlib.workdir("c07")
     ok = 0
